@@ -64,6 +64,10 @@ G711Float(d, T, mu) ==
         idx == IF sh <= 0 THEN r[1] * Pow2(-sh) ELSE RHE(r[1], sh)
     IN IF mu THEN UEncodeIdx(idx, j < 0) ELSE AEncodeIdx(idx, j < 0)
 
+\* G.711 from a 32 bit input: the upper 16 bits are encoded.  Whether the discarded lower bits of a negative input are dropped
+\* from the two's complement value (floor) or from the magnitude (towards zero) is not part of the documented rule: both are accepted.
+G711IntAlt(sub, v) == LET t == IF v = -2147483647 - 1 THEN -32768 ELSE IF v < 0 THEN -((-v) \div 65536) ELSE v \div 65536 IN
+                      <<IF sub = S_ULAW THEN UEncode16(t) ELSE AEncode16(t)>>
 \* bytes of one sample in the file
 ExpBytes(T, sub, v, big, norm, clip) ==
     CASE sub = S_ULAW -> <<IF T = "s" THEN UEncode16(v) ELSE IF T = "i" THEN UEncode16(v \div 65536) ELSE G711Float(v, T, TRUE)>>
@@ -71,7 +75,6 @@ ExpBytes(T, sub, v, big, norm, clip) ==
       [] sub = S_PCM_U8 -> <<ExpCode(T, sub, v, norm, clip) + 128>>
       [] OTHER -> BytesOf(ExpCode(T, sub, v, norm, clip), Width(sub) \div 8, big)
 \* the driver logs mantissas wider than 30 bits in two parts <<hi, lo, e>> (hi = |m| div 2^30, lo = |m| mod 2^30, both signed)
-DySplit(d) == IF Abs(d[1]) > 1073741823 THEN <<SignOf(d[1]) * (Abs(d[1]) \div 1073741824), SignOf(d[1]) * (Abs(d[1]) % 1073741824), d[2]>> ELSE d
 \* ---- expected value delivered for one stored code ----
 DecodeCode(sub, bytes, big) ==
     CASE sub = S_ULAW -> UDecode(bytes[1])
@@ -101,7 +104,8 @@ EncOK(e) ==      \* filedump event of an "enc" scenario
          /\ \A i \in 1..Len(wv) : Chunk(e.bytes, i, n) = (IF wT = "f" THEN PatBytes(wv[i], big) ELSE DblBytes(wv[i], big))
     ELSE LET n == SampleBytes(sub) IN
          /\ Len(e.bytes) = n * Len(wv)
-         /\ \A i \in 1..Len(wv) : Chunk(e.bytes, i, n) = ExpBytes(wT, sub, wv[i], big, norm, clip)
+         /\ \A i \in 1..Len(wv) : IF Chunk(e.bytes, i, n) = ExpBytes(wT, sub, wv[i], big, norm, clip) THEN TRUE
+                                    ELSE (wT = "i" /\ sub \in {S_ULAW, S_ALAW} /\ Chunk(e.bytes, i, n) = G711IntAlt(sub, wv[i]))
 DecOK(e) ==      \* read event of a "dec" scenario
     LET sub == cfg.sub  big == cfg.big = 1  norm == Get(cfg, "norm", 1) = 1 IN
     IF Get(cfg, "ieee", 0) = 1 THEN
